@@ -189,7 +189,7 @@ func runParent(id string, tier Tier) int {
 
 	budget := 240
 	if tier == Thorough {
-		budget = 1500
+		budget = 1800
 	}
 	budget = envInt("KV_BUDGET_S", budget)
 	deadline := t0.Add(time.Duration(budget) * time.Second)
